@@ -2,9 +2,10 @@
 # tools/run_all.sh [quick|thorough] -- run every registered check sequentially on the current tree,
 # print one line per check, exit non-zero if any check did.
 TIER=${1:-quick}
+ONLY="$2"
 cd "$(dirname "$0")/.."
 rc=0
-for id in $(python3 -c "import json;print(' '.join(c['property_id'] for c in json.load(open('MANIFEST.json'))['checks']))"); do
+for id in ${ONLY:-$(python3 -c "import json;print(' '.join(c['property_id'] for c in json.load(open('MANIFEST.json'))['checks']))")}; do
   t0=$(date +%s)
   ./check $id --tier $TIER > /tmp/run_all_$id.log 2>&1; c=$?
   t1=$(date +%s)
